@@ -61,15 +61,49 @@ func c10ZeroShares[E algebra.PrimeGroupElement[E, S], S algebra.PrimeFieldElemen
 	}
 	env.Reach("contexts")
 	check("full quorum", quorum, ctxs)
-	// every sub-quorum of size ≥ 2
+	// every sub-quorum of size ≥ 2. Parties derive their sub-contexts from ONE long-lived parent
+	// context in DIFFERENT orders (party k starts at the k-th sub-quorum and walks the list
+	// backwards if k is odd), as concurrent sessions would; a sub-context must not depend on what
+	// was derived before it.
+	var subs [][]sharing.ID
 	for _, sub := range subsetsOf(quorum) {
-		if len(sub) < 2 || len(sub) == len(quorum) {
-			continue
+		if len(sub) >= 2 && len(sub) < len(quorum) {
+			subs = append(subs, sub)
 		}
+	}
+	derived := map[sharing.ID]map[string]*session.Context{}
+	for k, id := range quorum {
+		derived[id] = map[string]*session.Context{}
+		for step := 0; step < len(subs); step++ {
+			i := (k + step) % len(subs)
+			if k%2 == 1 {
+				i = ((k-step)%len(subs) + len(subs)) % len(subs)
+			}
+			sub := subs[i]
+			member := false
+			for _, m := range sub {
+				if m == id {
+					member = true
+				}
+			}
+			if !member {
+				continue
+			}
+			sc, err := ctxs[id].SubContext(idSet(sub...))
+			if env.Check("C10/subcontext-ok", err == nil, fmt.Sprint(err)) {
+				derived[id][setName(sub)] = sc
+			}
+		}
+	}
+	for _, sub := range subs {
 		subCtx := map[sharing.ID]*session.Context{}
 		ok := true
 		for _, id := range sub {
-			sc, err := ctxs[id].SubContext(idSet(sub...))
+			sc, has := derived[id][setName(sub)]
+			var err error
+			if !has {
+				err = fmt.Errorf("not derived")
+			}
 			if !env.Check("C10/subcontext-ok", err == nil, fmt.Sprint(err)) {
 				ok = false
 				break
